@@ -92,6 +92,32 @@ def run (args : List String) : Option String :=
     | .ok .wkt => pure "wkt"
     | .ok .itself => pure "itself"
     | .error _ => pure "ERR:CRSError"
+  | ["normcrs", kind, orerr] => do
+    let i ← (if kind = "none" then some CrsInput.none else if kind = "unset" then some .unset
+             else if kind = "odc" then some .odc else if kind = "utm+ctx" then some (.utmText true)
+             else if kind = "utm" then some (.utmText false) else if kind = "spec" then some (.otherSpec true)
+             else if kind = "badspec" then some (.otherSpec false) else none)
+    let oe ← parseBool? orerr
+    match (if oe then normCrsOrError i else normCrs i) with
+    | .ok .nothing => pure "None"
+    | .ok .same => pure "same"
+    | .ok .utm => pure "utm"
+    | .ok .constructed => pure "constructed"
+    | .error (.other _) => pure "ERR:CRSError"
+    | .error e => pure (fmtErr e)
+  | ["prog", name] => do
+    let op ← findOp name
+    let ps := match progOf op.walk with
+      | some (.straight st) => "straight:" ++ ",".intercalate (st.map (fun (s : Stmt) => match s with
+          | .checkRest true => "check(rev)" | .checkRest false => "check" | .returnIf _ => "returnIf" | .delegate => "delegate"))
+      | some (.loop b) => "loop:" ++ ",".intercalate (b.map (fun (s : LoopStmt) => match s with
+          | .accumulate => "accumulate" | .check => "check" | .continueIf _ => "continueIf"))
+      | none => "composite"
+    pure s!"{ps} access={accessPattern op.walk}"
+  | ["access", name, n] => do
+    let op ← findOp name
+    let n ← parseNat? n
+    pure (String.ofList (List.replicate (n - 1) (accessPattern op.walk)))
   | ["convops"] => some (",".intercalate convTable)
   | ["eqops"] => some (",".intercalate eqTable)
   | ["tageq", a, b] => do
